@@ -39,6 +39,7 @@ class SymWorld:
         self.notes = []
         self.bounds = []     # extra constraints used only when asking for a replay-friendly model
         self.nice = []       # harness-supplied constraints for replay-friendly models (e.g. dyadic parameters)
+        self.tiny = []       # an even smaller box used only to hunt for counterexamples when the full query is inconclusive
 
     # ---- inputs
     def real(self, name, lo=None, hi=None):
@@ -330,7 +331,7 @@ def _discharge(fn, params, W, g, base, timeout, replay, pathno):
     rec.update(time=r["time"], engine=r["engine"], size=r["size"], hash=r["hash"])
     if r["verdict"] == "unsat":
         rec["verdict"] = "holds"
-    elif r["verdict"] == "unknown" and not (W.nice and _bug_hunt(W, g, q, timeout, rec, fn, params, replay)):
+    elif r["verdict"] == "unknown" and not ((W.nice or W.tiny) and _bug_hunt(W, g, q, timeout, rec, fn, params, replay)):
         rec["verdict"] = "unknown"
     elif r["verdict"] == "unknown":
         pass    # _bug_hunt found and replayed a counterexample in the bounded box
@@ -365,14 +366,15 @@ def _discharge(fn, params, W, g, base, timeout, replay, pathno):
 def _bug_hunt(W, g, q, timeout, rec, fn, params, replay):
     """the full query was inconclusive: look for a counterexample inside the harness's 'nice' bounded box
     (a sat answer there is a genuine counterexample; unsat/unknown there proves nothing and is not reported as success)"""
-    r3 = solve.check(q + [z3.Not(g.t)] + W.nice + W.bounds, timeout=max(5.0, timeout / 2), inputs=W.inputs)
-    if r3["verdict"] != "sat" or not r3["model"] or not replay:
-        return False
-    ok, info = replay_goal(fn, params, r3["model"], g.name)
-    if not ok:
-        return False
-    rec.update(verdict="violated", replay=info, model={k: _fr(v) for k, v in r3["model"].items() if "!" not in k}, engine=(r3["engine"] or "") + " (bounded box)")
-    return True
+    for box in ([W.tiny] if W.tiny else []) + [W.nice + W.bounds]:
+        r3 = solve.check(q + [z3.Not(g.t)] + list(box), timeout=max(5.0, timeout / 2), inputs=W.inputs)
+        if r3["verdict"] != "sat" or not r3["model"] or not replay:
+            continue
+        ok, info = replay_goal(fn, params, r3["model"], g.name)
+        if ok:
+            rec.update(verdict="violated", replay=info, model={k: _fr(v) for k, v in r3["model"].items() if "!" not in k}, engine=(r3["engine"] or "") + " (bounded box)")
+            return True
+    return False
 
 
 def replay_goal(fn, params, model, goal_name):
